@@ -156,6 +156,25 @@ Theorem C15_frontends_agree_macro :
                          (builder_settings V S o).
 Proof. exact frontends_agree_macro. Qed.
 
+(* The map type reaches TypeSpaceSettings.map_type VERBATIM in all three front-ends: the
+   string the user wrote (`indexmap::IndexMap`, `crate::maps::M`, `super::M`, a bare
+   imported name, with or without a leading `::`) is the string MapType::new parses;
+   nothing is trimmed or prefixed.  Absent = "::std::collections::HashMap". *)
+Theorem C15_map_type_verbatim :
+  forall (V S : Type) (vec_order : list timpl -> list timpl) (o : opts V S) input output crates_it patch_it replace_it,
+    let m := match o_map_type V S o with Some m => m | None => default_map_type end in
+    s_map_type V S (builder_settings V S o) = m /\
+    s_map_type V S (cli_settings V S (cli_of_opts V S input output o)) = m /\
+    s_map_type V S (macro_settings_of V S vec_order (macro_input_of V S o crates_it patch_it replace_it)) = m.
+Proof. exact map_type_verbatim. Qed.
+
+(* ... on the model of convert() for ANY parsed command line *)
+Theorem C15_cli_map_type_verbatim :
+  forall (V S : Type) (a : cli_args V),
+    s_map_type V S (cli_settings V S a)
+    = match ca_map_type V a with Some m => m | None => default_map_type end.
+Proof. exact cli_map_type_verbatim. Qed.
+
 (* The macro's crates table reaches TypeSpaceSettings.crates entry for entry: every
    entry of the table -- whatever its version, `!` (Never) included -- is one
    with_crate call; the table is neither filtered nor extended.  (A crate listed as
